@@ -840,6 +840,31 @@ def message_level(run, rng, dist):
     return cases, stats
 
 
+def z_message_level(run, rng, dist):
+    """A Z message (custom structure) made of standard segments and a Z-segment: the standard segments are still
+    judged against the tables of the version - conforming instance and single-point defects inside a segment"""
+    cases = []
+    for v in S.VERSIONS:
+        lib = hl7apy.load_library(v)
+        mname = 'ZDT_Z01'
+        header = msh_line(mname, v, lib.SEGMENTS['MSH'])
+        names = [s for s in sorted(lib.SEGMENTS) if S.ok_segment(lib, s) and s != 'MSH' and lib.SEGMENTS[s][1]
+                 and any(row[2][0] >= 1 for row in lib.SEGMENTS[s][1])]
+        if len(names) < 2:
+            continue
+        a, b = rng.sample(names, 2)
+        good_b = fill_segment(b, lib.SEGMENTS[b])
+        for line, expect, label in segment_variants(rng, lib, a):
+            if label in ('conforming-all-fields',):
+                continue
+            lines = [header, line, good_b, 'ZIN|aa|bb']
+            c = message_case(run, v, mname, 'z-message/' + label, lines, expect, None, None)
+            dist['z-message'] = dist.get('z-message', 0) + 1
+            if c is not None:
+                cases.append(c)
+    return cases
+
+
 # ------------------------------------------------------------------------------------------
 # model side, message level: the tree is rebuilt in Coq from the nesting the implementation's
 # parser produced (Model/Validate.v: build_message) and validated by the model
@@ -1098,6 +1123,7 @@ def main(argv=None):
     seg_cases = segment_level(run, rng, dist)
     run.log('segment level: %d cases, %d oracle failures' % (len(seg_cases), len(run.failures)))
     msg_cases, stats = message_level(run, rng, dist)
+    z_message_level(run, rng, dist)     # oracle only: the message-level model does not cover Z messages (_check_z_element)
     run.log('message level: %d cases (%s), %d oracle failures' % (len(msg_cases), stats, len(run.failures)))
     n_profile, prof_cases = profile_level(run, rng, dist)
     dist['hash_seed_processes'] = hash_seed_probe(run)
